@@ -12,16 +12,20 @@ import (
 	"fmt"
 	"runtime"
 	"sync"
+	"sync/atomic"
 	"time"
 
 	"github.com/hydraide/hydraide/app/core/hydra/lock"
 	"verif/harness/common"
 )
 
+var overBound atomic.Int64
+
 type res struct {
 	nkeys, held, qc int
 	ops             map[string]int
 	heapDelta       int64
+	retained        []string
 }
 
 func oneCase(r *common.Rng, nkeys int, measureHeap bool) res {
@@ -35,7 +39,7 @@ func oneCase(r *common.Rng, nkeys int, measureHeap bool) res {
 	var omu sync.Mutex
 	kinds := make([]int, nkeys)
 	for i := range kinds {
-		kinds[i] = r.Intn(5)
+		kinds[i] = r.Intn(14)
 	}
 	common.Parallel(nkeys, 16, func(i int) {
 		key := fmt.Sprintf("k%d", i)
@@ -66,12 +70,77 @@ func oneCase(r *common.Rng, nkeys int, measureHeap bool) res {
 			l.Unlock(key, id)
 			l.Unlock(key, id2)
 			name = "handover_then_unlock"
-		default: // lock, unlock, lock again, unlock (the key's entry is re-created)
+		case 4: // lock, unlock, lock again, unlock (the key's entry is re-created)
 			id, _ := l.Lock(ctx, key, 5*time.Second)
 			l.Unlock(key, id)
 			id, _ = l.Lock(ctx, key, 5*time.Second)
 			l.Unlock(key, id)
 			name = "relock"
+		case 5: // Lock with an already-cancelled context on a free key (never locked before)
+			dead, cancel := context.WithCancel(ctx)
+			cancel()
+			if id, err := l.Lock(dead, key, 5*time.Second); err == nil {
+				l.Unlock(key, id) // the select may still have taken the ready branch
+			}
+			name = "lock_dead_ctx_free_key"
+		case 6: // Lock with an expired deadline on a key that is held, then the holder unlocks
+			id, _ := l.Lock(ctx, key, 5*time.Second)
+			dead, cancel := context.WithDeadline(ctx, time.Now().Add(-time.Second))
+			if id2, err := l.Lock(dead, key, 5*time.Second); err == nil {
+				l.Unlock(key, id2)
+			}
+			cancel()
+			l.Unlock(key, id)
+			name = "lock_dead_ctx_held_key"
+		case 7: // Unlock of a key that was never locked
+			l.Unlock(key, "no-such-id-"+key)
+			name = "unlock_never_locked_key"
+		case 8: // duplicate unlock
+			id, _ := l.Lock(ctx, key, 5*time.Second)
+			l.Unlock(key, id)
+			l.Unlock(key, id)
+			name = "duplicate_unlock"
+		case 9: // the TTL releases the lock, the client's Unlock arrives late
+			id, _ := l.Lock(ctx, key, 2*time.Millisecond)
+			for dl := time.Now().Add(2 * time.Second); time.Now().Before(dl); {
+				if n, _ := lock.QueueLen(l, key); n == 0 {
+					break
+				}
+				time.Sleep(500 * time.Microsecond)
+			}
+			l.Unlock(key, id)
+			name = "late_unlock_after_ttl"
+		case 10: // the right id on a wrong, never locked key; then the real unlock
+			id, _ := l.Lock(ctx, key, 5*time.Second)
+			l.Unlock(key+"-other", id)
+			l.Unlock(key, id)
+			name = "unlock_wrong_key"
+		case 11: // TTL zero: released at once, then a stale unlock
+			id, _ := l.Lock(ctx, key, 0)
+			time.Sleep(200 * time.Microsecond)
+			l.Unlock(key, id)
+			name = "ttl_zero_then_unlock"
+		case 12: // dead context first, then a normal lock/unlock of the same key (second use)
+			dead, cancel := context.WithCancel(ctx)
+			cancel()
+			if id, err := l.Lock(dead, key, 5*time.Second); err == nil {
+				l.Unlock(key, id)
+			}
+			id, _ := l.Lock(ctx, key, 5*time.Second)
+			l.Unlock(key, id)
+			l.Unlock(key, id)
+			name = "dead_ctx_then_relock_then_duplicate_unlock"
+		default: // waiter cancelled while queued, holder released by its TTL, late unlock by both
+			id, _ := l.Lock(ctx, key, 3*time.Millisecond)
+			c2, cancel := context.WithTimeout(ctx, time.Millisecond)
+			id2, err := l.Lock(c2, key, 3*time.Millisecond)
+			cancel()
+			time.Sleep(4 * time.Millisecond)
+			l.Unlock(key, id)
+			if err == nil {
+				l.Unlock(key, id2)
+			}
+			name = "ttl_and_cancel_then_late_unlocks"
 		}
 		omu.Lock()
 		ops[name]++
@@ -92,13 +161,31 @@ func oneCase(r *common.Rng, nkeys int, measureHeap bool) res {
 		close(waiterDone)
 	}
 	// quiescence: all short TTLs have fired
-	deadline := time.Now().Add(3 * time.Second)
+	wait := 3 * time.Second
+	if overBound.Load() >= 2 {
+		wait = 150 * time.Millisecond // residue already seen twice in this run: do not wait it out every time
+	}
+	deadline := time.Now().Add(wait)
 	for lock.QueueCount(l) > held && time.Now().Before(deadline) {
 		time.Sleep(2 * time.Millisecond)
 	}
 	time.Sleep(5 * time.Millisecond)
 	qc := lock.QueueCount(l)
-	out := res{nkeys: nkeys, held: held, qc: qc, ops: ops}
+	if qc > held {
+		overBound.Add(1)
+	}
+	var retained []string
+	opNames := []string{"lock_unlock", "lock_ttl_expiry", "lock_cancelled_waiter_unlock", "handover_then_unlock", "relock",
+		"lock_dead_ctx_free_key", "lock_dead_ctx_held_key", "unlock_never_locked_key", "duplicate_unlock", "late_unlock_after_ttl",
+		"unlock_wrong_key", "ttl_zero_then_unlock", "dead_ctx_then_relock_then_duplicate_unlock", "ttl_and_cancel_then_late_unlocks"}
+	for i := 0; i < nkeys && len(retained) < 8 && qc > held; i++ {
+		for _, k := range []string{fmt.Sprintf("k%d", i), fmt.Sprintf("k%d-other", i)} {
+			if n, has := lock.QueueLen(l, k); has {
+				retained = append(retained, fmt.Sprintf("%s (history: %s; callers queued now: %d)", k, opNames[kinds[i]], n))
+			}
+		}
+	}
+	out := res{nkeys: nkeys, held: held, qc: qc, ops: ops, retained: retained}
 	if measureHeap {
 		runtime.GC()
 		runtime.ReadMemStats(&m1)
@@ -116,7 +203,7 @@ func oneCase(r *common.Rng, nkeys int, measureHeap bool) res {
 func main() {
 	a := common.ParseArgs()
 	run := common.NewRun(a, "C28", "HV.Conc.BLock")
-	run.Meta.Rule = "a history of lock/unlock/TTL-expiry/cancelled-waiter/hand-over/relock operations over N distinct keys of one real lock, then H keys left locked (one with a waiter); observable = lock.QueueCount after quiescence, compared with the model bound (entries <= keys in use); non-trivial = N >= 2"
+	run.Meta.Rule = "a history of lock/unlock/TTL-expiry/cancelled-waiter/hand-over/relock operations, Lock with a dead context on free and held keys, Unlock of never-locked keys, duplicate/late/wrong-key unlocks, TTL 0 over N distinct keys of one real lock, then H keys left locked (one with a waiter); observable = lock.QueueCount after quiescence, compared with the model bound (entries <= keys in use); non-trivial = N >= 2"
 	rng := common.NewRng(a.Seed, "C28")
 	ncases, maxKeys := 150, 1500
 	if a.Tier == "thorough" {
@@ -134,7 +221,7 @@ func main() {
 			}
 		}
 		r := oneCase(rng.Fork(fmt.Sprintf("case%d", i)), nkeys, i == ncases-1)
-		d := map[string]interface{}{"kind": "residue", "distinct_keys": r.nkeys, "keys_left_locked": r.held, "queue_objects_after_quiescence": r.qc, "ops": r.ops}
+		d := map[string]interface{}{"kind": "residue", "distinct_keys": r.nkeys, "keys_left_locked": r.held, "queue_objects_after_quiescence": r.qc, "ops": r.ops, "keys_with_retained_queue_object(first 8)": r.retained}
 		if i == ncases-1 {
 			d["heap_delta_bytes(reported only)"] = r.heapDelta
 			run.Meta.Extra["heap_delta_bytes_after_10000_keys"] = r.heapDelta
